@@ -76,17 +76,25 @@ deriving Repr, DecidableEq
 
 namespace Snp
 
-def polarized (s : Snp) : Bool := polarizedTest s.out.isSome (s.out.getD dash) dash s.a1 s.a2
+/-- small codes with the same equality pattern among '-', allele1, allele2 and the outgroup allele ('-' ↦ 0): the key under which the
+    generated decision table `polTable` of `count_data_dict` (obtained on one representative per pattern) holds this SNP's row -/
+def canonA1 (a1 : Nat) : Nat := if a1 = dash then 0 else 1
+def canonA2 (a1 a2 : Nat) : Nat := if a2 = dash then 0 else if a2 = a1 then 1 else 2
+def canonOg (og a1 a2 : Nat) : Nat := if og = dash then 0 else if og = a1 then 1 else if og = a2 then 2 else 3
 
-/-- the `outgroup_allele` local variable of count_data_dict -/
-def outgroupUsed (s : Snp) : Nat :=
-  if s.polarized then s.out.getD dash else (if unpolOutgroupAllele = 1 then s.a1 else s.a2)
+def canonKey (out : Option Nat) (a1 a2 : Nat) : Option Nat × Nat × Nat :=
+  (out.map fun og => canonOg og a1 a2, canonA1 a1, canonA2 a1 a2)
 
-/-- which allele's calls are the derived ones (1 or 2); `none` = neither branch of the if/elif is taken -/
-def derivedSel (s : Snp) : Option Nat :=
-  if s.a1 == s.outgroupUsed then some derivedIfA1Outgroup
-  else if s.a2 == s.outgroupUsed then some derivedIfA2Outgroup
-  else none
+def polLookup (k : Option Nat × Nat × Nat) : Bool × Option Nat :=
+  ((polTable.find? fun row => row.1 == k).map (·.2)).getD (false, none)
+
+/-- (this_snp_polarized, which allele's calls are the derived ones) as `count_data_dict` decides them -/
+def polRow (s : Snp) : Bool × Option Nat := polLookup (canonKey s.out s.a1 s.a2)
+
+def polarized (s : Snp) : Bool := s.polRow.1
+
+/-- which allele's calls are the derived ones (1 or 2); `none` = `derived_calls` is not assigned -/
+def derivedSel (s : Snp) : Option Nat := s.polRow.2
 
 def pick (k : Nat) (c : Nat × Nat) : Nat := if k = 1 then c.1 else c.2
 
@@ -159,13 +167,19 @@ def spectrumAt (pol : Bool) (proj : List Nat) (snps : List Snp) (idx : List Nat)
 
 def isCorner (proj idx : List Nat) : Bool := idx.all (· == 0) || idx == proj
 
-/-- mask of the result: corners if requested; after folding the mask, its mirror image and the folded-out half, and
-    the corners again if `Spectrum.fold` builds its result with `mask_corners` on (generated `foldRemasksCorners`) -/
+/-- the mask `Spectrum(data, mask=m, mask_corners=mc)` ends up with: `m`, and the two corner entries if asked -/
+def ctorMask (mc : Bool) (proj : List Nat) (m : List Nat → Bool) (idx : List Nat) : Bool :=
+  m idx || (mc && isCorner proj idx)
+
+/-- mask of `fs.fold()` for a spectrum with mask `m`: `final_mask = mask | reversed mask | folded-out half`, handed to the
+    constructor, which masks the corners again iff its `mask_corners` is on (generated `foldRemasksCorners`) -/
+def foldMask (proj : List Nat) (m : List Nat → Bool) (idx : List Nat) : Bool :=
+  ctorMask foldRemasksCorners proj (fun i => m i || m (mirror proj i) || decide (natSum proj / 2 < natSum i)) idx
+
+/-- mask of `from_data_dict(…, mask_corners, polarized)`: the constructor's mask of `fs_total`, folded when unpolarised -/
 def maskAt (pol maskCorners : Bool) (proj idx : List Nat) : Bool :=
-  let c := maskCorners && isCorner proj idx
-  if pol then c
-  else c || (maskCorners && isCorner proj (mirror proj idx)) || decide (natSum proj / 2 < natSum idx)
-        || (foldRemasksCorners && isCorner proj idx)
+  if pol then ctorMask maskCorners proj (fun _ => false) idx
+  else foldMask proj (ctorMask maskCorners proj fun _ => false) idx
 
 /-- contribution of one SNP (what the count dictionary groups) -/
 def contribAt (pol : Bool) (proj : List Nat) (s : Snp) (idx : List Nat) : Rat :=
@@ -420,7 +434,7 @@ def fstConsts (ns : List Nat) : FstConsts :=
   { r := r, nsum := nsum, nbar := nsum / r, nc := fstNc nsum (sumMap ns fun n => (n : Rat) ^ 2) r }
 
 def fstPbar (ns idx : List Nat) : Rat :=
-  fstPbarOuter (sumPops ns idx fun n c => fstPbarTerm n (fstPtw c n)) (fstConsts ns).nsum
+  fstPbarOuter (sumPops ns idx fun n c => fstPbarTerm n (fstPtw c n)) (fstConsts ns).nsum (fstConsts ns).r
 
 def fstS2 (ns idx : List Nat) : Rat :=
   let K := fstConsts ns
